@@ -30,7 +30,13 @@ def _overlay():
 
 
 def _inpkg(ctx, run, env=None, name=None, timeout=1500):
-    return ctx.go_test(PKG, run=run, env=env, in_repo=True, overlay=_overlay(), tags=None, timeout=timeout, name=name or ("pubsub " + run))
+    rep = ctx.go_test(PKG, run=run, env=env, in_repo=True, overlay=_overlay(), tags=None, timeout=timeout, name=name or ("pubsub " + run))
+    if rep.get("drift") and not rep.get("violations"):
+        # the engine and the specification disagree although no property predicate failed: the check cannot vouch
+        raise _broken("DRIFT in %s (%d): %s" % (run, rep["drift"], "; ".join(rep.get("drift_notes") or [])[:3000]))
+    for n in (rep.get("drift_notes") or [])[:3]:
+        ctx.notes.append("drift (after a reported violation): " + n[:300])
+    return rep
 
 
 # ---- constants module for trace validation (see PubSubTrace.tla for why it is generated) ----
@@ -149,7 +155,7 @@ def run(ctx):
     # quick: the small configurations (np with fewer topics), no per-action coverage; thorough: all, with coverage
     # (an action that is never taken makes the run fail as vacuous)
     if thorough:
-        for cfg in ["PubSub_mc_nq.cfg", "PubSub_mc_n2.cfg", "PubSub_mc_np.cfg", "PubSub_mc_nt.cfg", "PubSub_mc_c1.cfg", "PubSub_mc_ct.cfg"]:
+        for cfg in ["PubSub_mc_nq.cfg", "PubSub_mc_n2.cfg", "PubSub_mc_np.cfg", "PubSub_mc_nt.cfg", "PubSub_mc_nt2.cfg", "PubSub_mc_c1.cfg", "PubSub_mc_ct.cfg"]:
             ctx.tlc_expect_ok("pubsub", "PubSubMC", cfg, coverage=True, timeout=3000)
     else:
         ctx.tlc_expect_ok("pubsub", "PubSubMC", "PubSub_mc_nq.cfg", timeout=1200)
